@@ -237,8 +237,10 @@ namespace OP2Utility::Archive
 		clmFileWriter.Write(indexEntries);
 
 		// Copy files into the archive
+		// Each reader is positioned at the start of its audio data; copy exactly the data chunk, not any chunks after it
 		for (std::size_t i = 0; i < header.packedFilesCount; ++i) {
-			clmFileWriter.Write(*filesToPackReaders[i]);
+			auto audioData = filesToPackReaders[i]->Slice(indexEntries[i].dataLength);
+			clmFileWriter.Write(audioData);
 		}
 	}
 
